@@ -66,11 +66,11 @@ var ErrTypes = map[string]ErrT{
 	"errs":  {"errs", "ErrS", "ErrS(nil)", "ErrS{itoa(%s)}", true, true, true},
 	"errv":  {"errv", "ErrV", "ErrV{}", "ErrV{Code: %s}", true, true, true},
 	"errp":  {"errp", "ErrP", "ErrP{}", "", true, false, false},
-	"perrp": {"perrp", "*ErrP", "(*ErrP)(nil)", "", false, true, true},
+	"perrp": {"perrp", "*ErrP", "(*ErrP)(nil)", "&ErrP{Code: %s}", false, true, true},
 	"miss1": {"miss1", "Miss1", "Miss1{}", "", false, false, false},
 	"miss2": {"miss2", "Miss2", "Miss2{}", "", false, false, false},
 	"miss3": {"miss3", "Miss3", "Miss3{}", "", false, false, false},
-	"miss4": {"miss4", "Miss4", "Miss4(nil)", "", false, true, true},
+	"miss4": {"miss4", "Miss4", "Miss4(nil)", "Miss4(errOf(9, %s))", false, true, true},
 	"miss5": {"miss5", "Miss5", "Miss5{}", "", false, false, false},
 }
 
@@ -257,6 +257,11 @@ func showErr(e error) string {
 			return "typednil" // a nil custom error inside a non-nil interface
 		}
 		return "9." + x[0]
+	case *ErrP:
+		if x == nil {
+			return "typednil"
+		}
+		return "9." + itoa(x.Code)
 	}
 	for k, v := range errTab {
 		if v == e {
